@@ -27,13 +27,24 @@ def process_level(res, tier):
         for outstep in ((0, 7) if vlib.wide(tier) else (7,)):
             cases.append((rf, "Ts", outstep, 1.0, 4e4, 40))
     steps_per_ts = 16
+    # whatever else the run is asked to do while it records the modulation (logging, saving, tracking, renormalising, a wake): one record per step all the same
+    track = os.path.join(wd, "track.txt")
+    with open(track, "w") as f:
+        f.write("0.5 0.3\n-1.0 0.2\n")
+    EXTRA = [[], ["--verbose", "true"], ["--SavePhaseSpace", 2], ["--tracking", track, "--FPTrack", 1], ["--RenormalizeCharge", 3], ["--verbose", "true", "--SavePhaseSpace", 1, "--RenormalizeCharge", 2],
+             ["--VacuumGap", 0.03, "--UseCSR", "false", "--CollimatorRadius", 0.002]]
+    cases = [c + (0,) for c in cases]
+    for rf in ("linear", "sin"):
+        for ex in range(1, len(EXTRA)):
+            for outstep in (0, 3, 4):
+                cases.append((rf, "Ts", outstep, 1.0, 4e4, 12, ex))
 
     def do(c):
-        rf, per, outstep, amp, fmod, nsteps = c
-        a = ["-s", 16, "-T", nsteps / steps_per_ts, "-n", outstep, "-G", 0, "-f", fs, "--padding", 2, "--LinearRF", "true" if rf == "linear" else "false",
-             "--RFPhaseModAmplitude", amp, "--RFPhaseModFrequency", fmod]
+        rf, per, outstep, amp, fmod, nsteps, ex = c
+        a = ["-s", 16, "-T", nsteps / steps_per_ts, "-n", outstep] + ([] if "--VacuumGap" in EXTRA[ex] else ["-G", 0]) + ["-f", fs, "--padding", 2, "--LinearRF", "true" if rf == "linear" else "false",
+             "--RFPhaseModAmplitude", amp, "--RFPhaseModFrequency", fmod] + EXTRA[ex]
         a += ["-N", steps_per_ts] if per == "Ts" else ["--StepsPerRevolution", steps_per_ts * fs / frev, "-N", 1000]
-        r = pl.run(exe, a, wd, out="o_%s_%s_%d_%g_%d.h5" % (rf, per, outstep, amp, nsteps))
+        r = pl.run(exe, a, wd, out="o_%s_%s_%d_%g_%d_%d.h5" % (rf, per, outstep, amp, nsteps, ex))
         doc = pl.h5(r["h5"], maxv=20000) if r["rc"] == 0 else None
         for ext in ("", ".cfg", ".log"):
             try:
@@ -42,8 +53,8 @@ def process_level(res, tier):
                 pass
         return c, r, doc
     for c, r, doc in pl.pmap(do, cases):
-        rf, per, outstep, amp, fmod, nsteps = c
-        case = "process rf=%s steps-per=%s outstep=%d amplitude=%gdeg f_mod=%gHz steps=%d" % (rf, per, outstep, amp, fmod, nsteps)
+        rf, per, outstep, amp, fmod, nsteps, ex = c
+        case = "process rf=%s steps-per=%s outstep=%d amplitude=%gdeg f_mod=%gHz steps=%d%s" % (rf, per, outstep, amp, fmod, nsteps, (" with " + " ".join(str(x) for x in EXTRA[ex] if not str(x).startswith("/"))) if ex else "")
         rp = dict(cmd=r["cmd"])
         if doc is None or "error" in doc:
             res.violate("C19/process/run-failed", case, "rc=%s %s" % (r["rc"], r["log"][-200:]), replay=rp)
